@@ -1,2 +1,14 @@
 #!/bin/sh
-exit 0
+# Build everything the checks need from files on disk only (offline): the harness workspace
+# (against /repo's working tree) and the whole Coq development.  The checks rebuild
+# incrementally from /repo on every run; this only warms the caches.
+set -e
+cd "$(dirname "$0")"
+export CARGO_NET_OFFLINE=true CARGO_TARGET_DIR="$PWD/.cache/target" RUST_BACKTRACE=0
+mkdir -p .cache evidence
+(cd harness && cargo build --offline --workspace 2>&1 | tail -3)
+./.cache/target/debug/rs2v /repo coq/Gen
+cd coq
+(cat _CoqProject.head; ls Lib/*.v Gen/*.v Model/*.v Proofs/*.v Props/*.v) > _CoqProject
+coq_makefile -f _CoqProject -o Makefile > /dev/null
+timeout 3000 make -j16 2>&1 | tail -5
